@@ -337,6 +337,17 @@ def gen_stall_routing(rng, n):
     return out
 
 
+def gen_attachack(rng, n):
+    """a connection joins an existing bridge through the real handleExistingBridge while the source end has bytes pending: its
+    TunnelOpenAck must be on its wire before any tunnel byte"""
+    out = []
+    for k in range(n):
+        out.append({"mode": "attachack",
+                    "r0": [dict(rand_data(rng, rng.choice([1, 30, 900, 20000])), e=0) for _ in range(rng.randrange(1, 4))],
+                    "r1": [dict(rand_data(rng, rng.choice([1, 30, 900])), e=0) for _ in range(rng.randrange(0, 3))]})
+    return out
+
+
 def stall_deterministic(c):
     """the direction that ends the tunnel has flushed >= 1 byte into its counter before it calls Close, so the final report
     made by Close's clean handler is due and parks in the stalled call"""
@@ -423,6 +434,8 @@ def classify(c, o, sliced):
         return "reattach-bytes-to-stale-end" if "did not reach the attached source end" in (o.get("prop_msg") or "") else "reattach-tunnel-broken"
     if key == "stuck" and "waiting for limiter tokens" in (o.get("prop_msg") or ""):
         return "token-wait-not-aborted-by-closure"
+    if key == "ack-order":
+        return "tunnel-payload-before-open-ack"
     if key == "registry-routing":
         return "tunnel-map-waits-for-routing-store"
     if key == "stalled-stats":
@@ -510,6 +523,7 @@ def run(ctx, only_cases=None):
         cases += gen_cancel_in_wait(rng, 8 if thorough else 2)
         cases += gen_stall_midstream(rng, 4 if thorough else 1)
         cases += gen_stall_routing(rng, 12 if thorough else 3)
+        cases += gen_attachack(rng, 16 if thorough else 4)
         if thorough:   # real loopback TCP, real 6.5 s pause of the remaining direction after the first one half-closed
             cases.append({"mode": "relay", "relay": "bidir", "flow": "reqresp", "fail_end": 0, "tcp": True, "delay_ms": 6500})
     # the start race can kill the harness process (nil dereference inside a goroutine of Bridge.Start): own process
@@ -595,7 +609,7 @@ def run(ctx, only_cases=None):
             "stats_backend_stalled": 0, "final_report_parked": 0, "forget_required_while_parked": 0,
             "write_parked_at_teardown": 0, "source_reattach_histories": 0, "reattaches": 0,
             "adapter_wrapped_end": 0, "one_sided_traffic_both_ends_open": 0, "end_fails_non_eof": 0, "half_close_relay": 0,
-            "parent_context_cancelled": 0, "write_error_transient_timeout": 0, "bytes_with_error_on_adapter_end": 0, "close_during_token_wait": 0, "stats_backend_stuck_midstream_3MiB": 0, "routing_store_delete_stalled": 0, "adapter_timeout_between_data": 0, "relay_pause_longer_than_any_deadline": 0, "permanent_timeout_failure": 0, "close_races_reattach": 0, "relay_end_without_half_close": 0, "early_eof_other_direction_live": 0}
+            "parent_context_cancelled": 0, "write_error_transient_timeout": 0, "bytes_with_error_on_adapter_end": 0, "close_during_token_wait": 0, "stats_backend_stuck_midstream_3MiB": 0, "routing_store_delete_stalled": 0, "join_with_pending_source_bytes": 0, "adapter_timeout_between_data": 0, "relay_pause_longer_than_any_deadline": 0, "permanent_timeout_failure": 0, "close_races_reattach": 0, "relay_end_without_half_close": 0, "early_eof_other_direction_live": 0}
     for c, o in zip(cases, outs):
         h = hashlib.sha256(json.dumps(c, sort_keys=True).encode()).hexdigest()
         distinct.add(h)
@@ -620,6 +634,12 @@ def run(ctx, only_cases=None):
             dist["early_eof_other_direction_live"] += c.get("flow") == "reqresp"
             dist["bytes_through_real_code"] += o.get("len0", 0) + o.get("len1", 0)
             if o.get("returned"):
+                nontrivial.add(h)
+            continue
+        if m == "attachack":
+            dist["join_with_pending_source_bytes"] += 1
+            dist["bytes_through_real_code"] += o.get("len0", 0) + o.get("len1", 0)
+            if o.get("start_returned") and o.get("len0", 0) > 0:
                 nontrivial.add(h)
             continue
         if m in ("backpressure", "reattach"):
